@@ -57,6 +57,7 @@ type interpreter struct {
 	protoSeq           int
 	manualTimers       bool
 	jsonStreams        map[*value]*jsonStream
+	jsonCodecs         map[*value]*jsonCodec
 	pendingTimers      []*channel
 	protoMsgs          map[string]iface
 	nowHook            *value // harness clock cell (unix nanos), if the harness installed one
